@@ -44,6 +44,15 @@ Theorem C04_wf_blocks_exposed :
              /\ p_initial st = w_leading d.
 Proof. exact wf_blocks_exposed. Qed.
 
+(** the same for the other input form: the list of the text's lines *)
+Theorem C04_wf_roundtrip_lines :
+  forall J strict allow d, wf_doc d = true ->
+  exists st, parse_changelog J strict allow None (InLines (doc_lines d)) = Ok st
+             /\ p_warn st = []
+             /\ format_changelog false (cl_of st) = Ok (render d)
+             /\ map exposed (p_blocks st) = map (fun b => Some (expose b)) (w_blocks d).
+Proof. exact wf_roundtrip_lines. Qed.
+
 (** every well-formed text stands for a document, so theorem 2 is never vacuous *)
 Theorem C04_wf_has_doc :
   forall t, wf_changelog t = true -> exists d, doc_of t = Some d /\ wf_doc d = true /\ render d = t.
@@ -74,4 +83,5 @@ Qed.
 Print Assumptions C04_wf_roundtrip.
 Print Assumptions C04_wf_roundtrip_any_mode.
 Print Assumptions C04_wf_blocks_exposed.
+Print Assumptions C04_wf_roundtrip_lines.
 Print Assumptions C04_wf_has_doc.
